@@ -240,7 +240,7 @@ func (c *CheckCtx) finish() int {
 		"blackbox_runs":       c.Eng.BlackboxRuns.Load(),
 		"worker_deaths":       c.Eng.WorkerDeaths.Load(),
 		"step_max": map[string]any{
-			"tokens": c.Eng.MaxTokens.Load(), "eof_reads": c.Eng.MaxEOF.Load(),
+			"tokens": c.Eng.MaxTokens.Load(), "eof_reads": c.Eng.MaxEOF.Load(), "walks": c.Eng.MaxWalks.Load(),
 			"tokens_per_byte_x1000": c.Eng.MaxTokPerRune.Load(),
 		},
 		"known_findings_hit": knownHits,
